@@ -261,4 +261,94 @@ theorem iterate_inv_gen {σ : Type} (lr : σ → List Event → Option σ)
         rw [Outcome_ok]
         exact ⟨oev, ls1, rfl, hl1, .inr ⟨.fuel, rfl, by simpa using hpost, rfl⟩⟩
 
+/-- the events of `a` are a prefix of the events of `a; b` -/
+theorem exec_seq_events (fuel a b env inp o) (h : exec fuel (.seq a b) env inp = .ok o) :
+    ∃ o1, exec fuel a env inp = .ok o1 ∧ ∃ tl, o.events = o1.events ++ tl := by
+  rw [exec_seq] at h
+  cases h1 : exec fuel a env inp with
+  | error e => rw [h1] at h; cases h
+  | ok o1 =>
+    rw [h1] at h
+    refine ⟨o1, rfl, ?_⟩
+    rcases o1 with ⟨ev, en, ip, ctl⟩
+    cases ctl <;> simp only [seqPost] at h <;> try (cases h; exact ⟨[], by simp⟩)
+    cases h2 : exec fuel b en ip with
+    | error e => rw [h2] at h; cases h
+    | ok o2 => rw [h2] at h; cases h; exact ⟨o2.events, rfl⟩
+
+/-- Invariant rule for `for (;;) body`, **for every oracle**: no assumption on the oracle's values; instead the
+conclusion about the local automaton is conditional on `W` (well-typedness of the observed value) holding for the
+events the run produced.  `J` / `RJ`: unconditional invariant / terminal facts about the environment (enough to keep
+executing symbolically); `I` / `R`: the relation to the local L2 state, maintained as long as the events are `W`. -/
+theorem iterate_inv_wt {σ : Type} (lr : σ → List Event → Option σ) (W : Event → Prop)
+    (lr_nil : ∀ s, lr s [] = some s)
+    (lr_append : ∀ s a b, lr s (a ++ b) = (lr s a).bind (fun m => lr m b))
+    (body : Env → List Val → Except String Out)
+    (J : Env → Prop) (RJ : Ctl → Env → Prop) (I : Env → σ → Prop) (R : Ctl → Env → σ → Prop)
+    (hbody : ∀ env inp o, J env → body env inp = .ok o →
+      (if o.ctl.goesOn then J o.env else RJ o.ctl o.env) ∧
+      (∀ ls, I env ls → (∀ e ∈ o.events, W e) → ∃ ls', lr ls o.events = some ls' ∧
+        (if o.ctl.goesOn then I o.env ls' else R o.ctl o.env ls'))) :
+    ∀ n env inp acc out, J env → iterate body n env inp acc = .ok out →
+      ∃ evs, out.events = acc ++ evs ∧
+        (out.ctl = .fuel ∨ ∃ c, c.goesOn = false ∧ RJ c out.env ∧ out.ctl = c.afterLoop) ∧
+        (∀ ls, I env ls → (∀ e ∈ evs, W e) → ∃ ls', lr ls evs = some ls' ∧
+          (out.ctl = .fuel ∨ ∃ c, c.goesOn = false ∧ R c out.env ls' ∧ out.ctl = c.afterLoop)) := by
+  intro n
+  induction n with
+  | zero =>
+    intro env inp acc out _ h
+    rw [iterate] at h; cases h
+    exact ⟨[], by simp, .inl rfl, fun ls _ _ => ⟨ls, lr_nil ls, .inl rfl⟩⟩
+  | succ n ih =>
+    intro env inp acc out hJ h
+    simp only [iterate, bind, Except.bind] at h
+    cases hb : body env inp with
+    | error e => rw [hb] at h; cases h
+    | ok o =>
+      rw [hb] at h
+      obtain ⟨hj, hi⟩ := hbody env inp o hJ hb
+      rcases o with ⟨oev, oenv, oinp, octl⟩
+      cases octl with
+      | normal =>
+        simp only [Ctl.goesOn, if_true] at hj hi h
+        obtain ⟨evs, hev, hs, ht⟩ := ih oenv oinp (acc ++ oev) out hj h
+        refine ⟨oev ++ evs, by simp [hev], hs, ?_⟩
+        intro ls hI hW
+        obtain ⟨ls1, hl1, hI1⟩ := hi ls hI (fun e he => hW e (List.mem_append_left _ he))
+        obtain ⟨ls2, hl2, hfin⟩ := ht ls1 hI1 (fun e he => hW e (List.mem_append_right _ he))
+        exact ⟨ls2, by simp [lr_append, hl1, hl2], hfin⟩
+      | cont =>
+        simp only [Ctl.goesOn, if_true] at hj hi h
+        obtain ⟨evs, hev, hs, ht⟩ := ih oenv oinp (acc ++ oev) out hj h
+        refine ⟨oev ++ evs, by simp [hev], hs, ?_⟩
+        intro ls hI hW
+        obtain ⟨ls1, hl1, hI1⟩ := hi ls hI (fun e he => hW e (List.mem_append_left _ he))
+        obtain ⟨ls2, hl2, hfin⟩ := ht ls1 hI1 (fun e he => hW e (List.mem_append_right _ he))
+        exact ⟨ls2, by simp [lr_append, hl1, hl2], hfin⟩
+      | brk =>
+        simp only [Ctl.goesOn] at hj hi h; cases h
+        refine ⟨oev, rfl, .inr ⟨.brk, rfl, by simpa using hj, rfl⟩, ?_⟩
+        intro ls hI hW
+        obtain ⟨ls1, hl1, hR⟩ := hi ls hI hW
+        exact ⟨ls1, hl1, .inr ⟨.brk, rfl, by simpa using hR, rfl⟩⟩
+      | ret v =>
+        simp only [Ctl.goesOn] at hj hi h; cases h
+        refine ⟨oev, rfl, .inr ⟨.ret v, rfl, by simpa using hj, rfl⟩, ?_⟩
+        intro ls hI hW
+        obtain ⟨ls1, hl1, hR⟩ := hi ls hI hW
+        exact ⟨ls1, hl1, .inr ⟨.ret v, rfl, by simpa using hR, rfl⟩⟩
+      | blocked =>
+        simp only [Ctl.goesOn] at hj hi h; cases h
+        refine ⟨oev, rfl, .inr ⟨.blocked, rfl, by simpa using hj, rfl⟩, ?_⟩
+        intro ls hI hW
+        obtain ⟨ls1, hl1, hR⟩ := hi ls hI hW
+        exact ⟨ls1, hl1, .inr ⟨.blocked, rfl, by simpa using hR, rfl⟩⟩
+      | fuel =>
+        simp only [Ctl.goesOn] at hj hi h; cases h
+        refine ⟨oev, rfl, .inr ⟨.fuel, rfl, by simpa using hj, rfl⟩, ?_⟩
+        intro ls hI hW
+        obtain ⟨ls1, hl1, hR⟩ := hi ls hI hW
+        exact ⟨ls1, hl1, .inr ⟨.fuel, rfl, by simpa using hR, rfl⟩⟩
+
 end UrcuVerif.Src
